@@ -5,7 +5,7 @@
 import json, os, random, time
 from . import core
 
-TYPES = ['eth', 'sll', 'vlan', 'macsec', 'arp', 'ipv4', 'auth', 'ipv6', 'udp', 'tcp', 'frag', 'rawext', 'icmp6']
+TYPES = ['iph', 'eth', 'sll', 'vlan', 'macsec', 'arp', 'ipv4', 'auth', 'ipv6', 'udp', 'tcp', 'frag', 'rawext', 'icmp6']
 
 
 def tag_props(tag):
@@ -52,6 +52,30 @@ def cases(wire_cases, tier, seed):
         # noise
         for _ in range(10 if tier == 'quick' else 200):
             out.append({'type': ty, 'bytes': [r.randrange(256) for _ in range(r.randrange(0, 70))]})
+    # multi-part reader / writer: IP header + extension headers (IpHeaders::read / write), total length = headers only
+    def auth(nh):
+        return [nh, 2, 0, 0, 0, 0, 1, 2, 0, 0, 0, 9, 1, 2, 3, 4]
+    for ihl in (5, 6, 10, 15):
+        for with_auth in (False, True):
+            hl = 4 * ihl
+            ext = auth(17) if with_auth else []
+            tl = hl + len(ext)
+            h = [0x40 | ihl, 0, tl >> 8, tl & 255, 1, 2, 0x40, 0, 64, 51 if with_auth else 17, 0, 0, 10, 0, 0, 1, 10, 0, 0, 2] + [1] * (hl - 20)
+            out.append({'type': 'iph', 'bytes': h + ext})
+    def ext6(kind, nh):
+        if kind == 44:
+            return [nh, 0, 0, 0, 0, 0, 0, 7]
+        if kind == 51:
+            return auth(nh)
+        return [nh, 1] + [0] * 14
+    for chain in ([], [0], [60], [43], [44], [51], [0, 60, 43, 44, 51, 60], [60, 43, 60], [44, 51]):
+        body = []
+        nh = 17
+        for kind in reversed(chain):
+            body = ext6(kind, nh) + body
+            nh = kind
+        pl = len(body)
+        out.append({'type': 'iph', 'bytes': [0x60, 0, 0, 0, pl >> 8, pl & 255, nh, 64] + list(range(1, 17)) + list(range(101, 117)) + body})
     for i, c in enumerate(out):
         c['id'] = 'i%d' % i
     return out
@@ -117,6 +141,9 @@ def run(pid, tier, seed, replay=None):
     binary = core.build_harness()
     if replay:
         rp = json.load(open(replay))
+        if rp.get('kind') == 'build-run':
+            from . import simple
+            return simple.run_job(builder_job(), pid, tier, seed, replay)
         inp = os.path.join(wd, 'replay_in.ndjson')
         open(inp, 'w').write(json.dumps(rp['input']) + '\n')
         trace = os.path.join(wd, 'replay_trace.ndjson')
@@ -134,6 +161,35 @@ def run(pid, tier, seed, replay=None):
            'traces_validated_against_impl': stats['events'], 'details': notes}
     code = core.finish(pid, violations, set(), wd)
     core.write_evidence(pid, tier, seed, 'fault_enumeration', cov, time.time() - t0, len(violations),
-                        ['13 header types (the typed ICMPv4 header and multi-part writers IpHeaders / Ipv6Extensions / PacketBuilder are exercised by the C10 and C12 checks)',
+                        ['13 header types + IpHeaders (IP header with extension headers, multi-part reader/writer); the typed ICMPv4 header is exercised by the C10 check',
                          'fault model: the sink/source delivers exactly k bytes and then returns an error; short writes/reads before the fault are not modelled separately'])
-    return code
+    # second pipeline: the packet builder as a multi-part writer (failing io::Write at every byte, too-short slices of many lengths)
+    from . import simple
+    ev1 = json.load(open(core.EVID + '/%s.json' % pid))
+    code2 = simple.run_job(builder_job(), pid, tier, seed, None)
+    ev2 = json.load(open(core.EVID + '/%s.json' % pid))
+    c1, c2 = ev1['coverage'], ev2['coverage']
+    for k in ('states', 'transitions', 'traces_validated_against_impl', 'evaluations', 'distinct_nontrivial'):
+        c1[k] = c1[k] + c2[k]
+    c1['samples'] = c1['samples'][:2] + c2['samples'][:2]
+    c1['details'] = {'headers': c1['details'], 'builder': c2['details']}
+    c1['rule'] = c1['rule'] + ' | ' + c2['rule']
+    ev1['wall_s'] = ev1['wall_s'] + ev2['wall_s']
+    ev1['violations'] = ev1['violations'] + ev2['violations']
+    ev1['assumptions'] = ev1.get('assumptions', []) + ev2.get('assumptions', [])
+    json.dump(ev1, open(core.EVID + '/%s.json' % pid, 'w'), indent=1, sort_keys=True)
+    return 1 if 1 in (code, code2) else max(code, code2)
+
+
+def builder_tags(tag):
+    t = tag.split(':')[0]
+    return ['C16'] if t.startswith('sinks.') or t.startswith('panic') else []
+
+
+def builder_job():
+    from .simple import Job
+    return Job('C16', mc='MC_Builder', tag='BUILD', drive='build-run', trace='Trace_Builder',
+               invariants=['TypeState', 'SizeFits', 'Emit'], consts_quick={'Wide': 'FALSE'}, consts_thorough={'Wide': 'TRUE'},
+               tag_props=builder_tags, level='fault_enumeration',
+               describe='one case = one builder path x payload: write into a sink failing after k bytes (every k) and write_to_slice into too-short slices of many lengths',
+               assumptions=['builder sinks: every fault position of the io::Write sink for packets up to 2000 bytes; ~20 short slice lengths per packet'])
